@@ -15,6 +15,8 @@ use serde_json::json;
 pub struct C01 {
     enumerated: Option<Vec<Vec<Stmt>>>,
     corpus: Vec<CorpusCase>,
+    /// (slot, construct) edges already reported by this worker
+    seen_edges: std::collections::HashSet<(u8, u8)>,
 }
 
 pub struct CorpusCase {
@@ -83,7 +85,7 @@ pub fn corpus() -> Vec<CorpusCase> {
 
 impl C01 {
     pub fn new() -> Self {
-        C01 { enumerated: None, corpus: corpus() }
+        C01 { enumerated: None, corpus: corpus(), seen_edges: Default::default() }
     }
 
     fn enum_budget(ctx: &Ctx) -> usize {
@@ -114,6 +116,7 @@ impl C01 {
             f.push((p.name(), per_profile));
         }
         f.push(("operator-grouping", if ctx.flavour == Flavour::Rel { GROUPING_TOTAL } else { 2_000 }));
+        f.push(("wild", per_profile * 2));
         Families::new(f)
     }
 }
@@ -254,6 +257,14 @@ impl Check for C01 {
                         st.distinct_hash(shape_hash(t));
                     }
                 }
+                // structural coverage of the corpus that was actually judged: (slot, construct) edges of the tree
+                if let Some(t) = &d.tree {
+                    for e in crate::ast::edges_program(t) {
+                        if self.seen_edges.insert(e) {
+                            st.set_insert("ast-edges", &format!("{} <- {}", crate::ast::slot_name(e.0), crate::ast::KIND_NAMES[e.1 as usize]));
+                        }
+                    }
+                }
                 if idx % 5003 == 0 {
                     st.sample(&format!("[{}] {}", fam, text));
                 }
@@ -273,15 +284,47 @@ impl Check for C01 {
         }
         let mut me = C01::new();
         let fams = me.fams(ctx);
+        // structural coverage: which (slot <- construct) combinations of the grammar did no judged program contain?
+        let observed: std::collections::HashSet<String> = merged.sets.get("ast-edges").map(|s| s.iter().cloned().collect()).unwrap_or_default();
+        let exprs = ["Infix", "Prefix", "Int", "Float", "Bool", "If", "Ident", "Function", "Call", "Assign", "Str", "Array", "Index", "While"];
+        let stmts = ["Infix", "Prefix", "Int", "Float", "Bool", "If", "Ident", "Function", "Call", "Assign", "Str", "Array", "Index", "While", "Let", "Return", "Block", "Break", "Continue"];
+        let mut universe: Vec<String> = vec![];
+        for slot in ["program", "block", "if.cons", "if.alt", "while.body", "function.body"] {
+            for k in stmts {
+                // antwoord outside a function and stop / volgende outside a loop are rejected or unspecified at top level
+                if slot == "program" && matches!(k, "Return" | "Break" | "Continue") {
+                    continue;
+                }
+                universe.push(format!("{}.item <- {}", slot, k));
+                universe.push(format!("{}.last <- {}", slot, k));
+            }
+            if slot != "program" {
+                universe.push(format!("{}.last <- (empty)", slot));
+            }
+        }
+        for slot in ["let.value", "return.value", "infix.left", "infix.right", "prefix.operand", "assign.value", "if.cond", "while.cond", "call.arg", "array.item", "index.index"] {
+            for k in exprs {
+                // a function literal as the left operand of an operator is refused by the parser (DESIGN 4.3(2))
+                if slot == "infix.left" && k == "Function" {
+                    continue;
+                }
+                universe.push(format!("{} <- {}", slot, k));
+            }
+        }
+        for e in ["assign.target <- Ident", "assign.target <- Index", "call.callee <- Ident", "call.callee <- Function", "index.base <- Ident", "index.base <- Array", "index.base <- Str"] {
+            universe.push(e.to_string());
+        }
+        let not_generated: Vec<String> = universe.iter().filter(|e| !observed.contains(*e)).cloned().collect();
         let skipped: u64 = merged.counters.iter().filter(|(k, _)| k.starts_with("skipped-unspecified")).map(|(_, v)| *v).sum();
         Summary {
-            rule: "case = one program text (directed corpus with documented outputs; bounded-exhaustive enumeration over a small vocabulary; every pair of binary operators in both nestings over every operand triple of six atoms, built as a harness tree and printed with only the parentheses the specified precedence table requires; seeded type-directed random programs in six profiles, 15 % with one injected fault). The real parser's tree is evaluated by the definitional interpreter of DESIGN.md §4 and value, captured output and error kind are compared with eval() under probes + quarantine shadow heap. distinct_nontrivial = distinct tree shapes (names and literals blanked) with a specified reference outcome that dispatched >= 20 instructions".to_string(),
+            rule: "case = one program text (directed corpus with documented outputs; bounded-exhaustive enumeration over a small vocabulary; every pair of binary operators in both nestings over every operand triple of six atoms, built as a harness tree and printed with only the parentheses the specified precedence table requires; seeded type-directed random programs in six profiles, 15 % with one injected fault; seeded structure-first programs that put any construct into any slot the grammar allows). The real parser's tree is evaluated by the definitional interpreter of DESIGN.md §4 and value, captured output and error kind are compared with eval() under probes + quarantine shadow heap. distinct_nontrivial = distinct tree shapes (names and literals blanked) with a specified reference outcome that dispatched >= 20 instructions".to_string(),
             exhaustive: Some(true),
             extra: json!({
                 "exhaustive_parts": [format!("all programs of the enumerator up to node budget {} ({} programs)", C01::enum_budget(ctx), fams.fams[1].1)],
                 "families": fams.fams.iter().map(|f| json!({"name": f.0, "cases": f.1})).collect::<Vec<_>>(),
                 "skipped_unspecified_total": skipped,
                 "opcodes_never_dispatched": missing,
+                "ast_edges": {"universe": universe.len(), "in_judged_programs": universe.len() - not_generated.len(), "never_in_a_judged_program": not_generated},
             }),
             assumptions: vec![
                 "the reference interpreter (harness/src/refsem.rs) is the definition; it is cross-checked against the documented outputs of examples/*.nl and the README snippets in every run".to_string(),
@@ -312,9 +355,13 @@ impl C01 {
                 let i = if ctx.flavour == Flavour::Rel { i } else { (i * 7919 + ctx.seed) % GROUPING_TOTAL };
                 (name, to_text(&grouping_case(i)))
             }
+            "wild" => {
+                let mut r = Rng::for_case(ctx.seed, 190, i);
+                (name, to_text(&crate::wild::wild_program(&mut r)))
+            }
             _ => {
                 let mut r = Rng::for_case(ctx.seed, 100 + f as u64, i);
-                let profile = PROFILES[f - 2];
+                let profile = PROFILES[(f - 2).min(PROFILES.len() - 1)];
                 let (p, _) = random_program(&mut r, profile);
                 (name, to_text(&p))
             }
